@@ -1,14 +1,17 @@
 #!/bin/sh
-# usage: try_patch.sh <patch> <property> [tier]   -> applies patch to /repo, runs the check, reverts
-patch=$1; prop=$2; tier=${3:-quick}
-cd /repo || exit 2
-git reset -q --hard HEAD
-if ! git apply --check "$patch" 2>/dev/null; then echo "PATCH-DOES-NOT-APPLY $patch"; exit 3; fi
-git apply "$patch"
-cd /verif && ./check "$prop" "$tier" > /tmp/try_patch_$$.log 2>&1
+# usage: try_patch.sh <patch> <property> [tier]
+# Applies the patch to a SCRATCH worktree of /repo's HEAD (so that checks running elsewhere against /repo are not
+# disturbed), runs the check against it (QUANSINO_REPO), removes the worktree.  Equivalent to
+#   git -C /repo apply <patch>; ./check <property> <tier>; git -C /repo checkout -- .
+patch=$(readlink -f "$1"); prop=$2; tier=${3:-quick}
+wt=$(mktemp -d /tmp/qmut_XXXXXX); rmdir "$wt"
+git -C /repo worktree add -q --detach "$wt" HEAD || exit 2
+cleanup() { git -C /repo worktree remove --force "$wt" 2>/dev/null; rm -rf "$wt"; rm -f /tmp/try_patch_$$.log; }
+trap cleanup EXIT
+if ! git -C "$wt" apply --check "$patch" 2>/dev/null; then echo "PATCH-DOES-NOT-APPLY $patch"; exit 3; fi
+git -C "$wt" apply "$patch"
+cd /verif && QUANSINO_REPO="$wt" ./check "$prop" "$tier" > /tmp/try_patch_$$.log 2>&1
 rc=$?
-git -C /repo reset -q --hard HEAD
 grep -E "^VIOLATION|^  signature|^OK|MACHINERY" /tmp/try_patch_$$.log | cut -c1-260 | head -${LINES_MAX:-4}
-rm -f /tmp/try_patch_$$.log
 echo "rc=$rc"
 exit $rc
